@@ -271,3 +271,101 @@ func (c *Checker) manyResets(M uint64, n int) {
 	}
 	rep.Count("c15:reset-series")
 }
+
+// manyWarriors: a simulator holding n warriors (n beyond 8 and 16 bits), a
+// few of which are spawned: every report must carry the index of the warrior
+// it concerns and the recorder must show that index as the owner of the
+// warrior's cells. The witness is a battle without warrior list whose process
+// limit field carries n.
+func (c *Checker) manyWarriors(M uint64, n int) {
+	rep := c.Rep
+	rep.States++
+	b := &Battle{M: M, R: M, W: M, P: uint64(n), C: 2, ResetAt: -1}
+	var pan string
+	func() {
+		defer func() {
+			if r := recover(); r != nil {
+				pan = fmt.Sprint(r)
+			}
+		}()
+		cfg := b.config()
+		cfg.Processes = 2
+		sim, err := g.NewReportingSimulator(cfg)
+		if err != nil {
+			pan = err.Error()
+			return
+		}
+		lis := &listener{sim: sim, M: M, noSnap: true}
+		sim.AddReporter(lis)
+		sr := g.NewStateRecorder(sim)
+		sim.AddReporter(sr)
+		imp := []g.Instruction{Alphabet(M)[3]}
+		hs := make([]g.Warrior, n)
+		for i := 0; i < n; i++ {
+			h, err := sim.AddWarrior(&g.WarriorData{Code: imp, Start: 0})
+			if err != nil {
+				pan = err.Error()
+				return
+			}
+			hs[i] = h
+		}
+		var picks []int
+		for _, i := range []int{0, 127, 128, 255, 256, 32767, 32768, 40000, 65535, 65536, n - 1} {
+			if i < n && (len(picks) == 0 || picks[len(picks)-1] != i) {
+				picks = append(picks, i)
+			}
+		}
+		for k, i := range picks {
+			off := uint64(k) * 5 % M
+			lis.reps = lis.reps[:0]
+			if err := sim.SpawnWarrior(i, g.Address(off)); err != nil {
+				c.fail("C15", "many-warriors", b, func() string { return fmt.Sprintf("SpawnWarrior(%d): %v", i, err) })
+				return
+			}
+			for _, r := range lis.reps {
+				if r.Type == g.WarriorSpawn && r.WarriorIndex != i {
+					c.fail("C15", "many-warriors", b, func() string { return fmt.Sprintf("spawn report of warrior %d carries index %d", i, r.WarriorIndex) })
+				}
+			}
+			if _, own := sr.GetMemState(g.Address(off)); own != i {
+				c.fail("C15", "many-warriors", b, func() string { return fmt.Sprintf("after the spawn of warrior %d at %d the recorder shows owner %d", i, off, own) })
+			}
+		}
+		lis.reps = lis.reps[:0]
+		lis.tasks = lis.tasks[:0]
+		sim.RunCycle()
+		rep.Transitions++
+		rep.Traces++
+		// one task per spawned warrior, in index order; each imp writes the next cell and moves there
+		if len(lis.tasks) != len(picks) {
+			c.fail("C15", "many-warriors", b, func() string { return fmt.Sprintf("%d warriors were spawned, %d tasks were reported", len(picks), len(lis.tasks)) })
+			return
+		}
+		for k, i := range picks {
+			off := uint64(k) * 5 % M
+			if lis.tasks[k].W != i || lis.tasks[k].PC != off {
+				c.fail("C15", "many-warriors", b, func() string {
+					return fmt.Sprintf("task %d of the cycle: reported warrior %d at %d, expected warrior %d at %d", k, lis.tasks[k].W, lis.tasks[k].PC, i, off)
+				})
+			}
+			if _, own := sr.GetMemState(g.Address((off + 1) % M)); own != i {
+				c.fail("C15", "many-warriors", b, func() string {
+					return fmt.Sprintf("warrior %d wrote cell %d; the recorder shows owner %d", i, (off+1)%M, own)
+				})
+			}
+			if q := hs[i].Queue(); len(q) != 1 || uint64(q[0]) != (off+1)%M {
+				c.fail("C15", "many-warriors", b, func() string { return fmt.Sprintf("queue of warrior %d is %v", i, q) })
+			}
+		}
+		for _, r := range lis.reps {
+			if r.WarriorIndex < 0 || r.WarriorIndex >= n {
+				c.fail("C15", "many-warriors", b, func() string { return fmt.Sprintf("a report carries warrior index %d", r.WarriorIndex) })
+				break
+			}
+		}
+	}()
+	if pan != "" {
+		c.fail("C15", "panic", b, func() string { return "many warriors: " + pan })
+	}
+	rep.Count("c15:many-warrior-simulators")
+}
